@@ -105,6 +105,11 @@ def tree_input_shapes(rnd, tier, ty):
         r, k = rnd.choice([100, 300]), rnd.choice([1, 30, 50])
         out.append(("cross8192_%d_%d" % (x, y), Seqn.from_runs([([x], r), ([y], 8192 + k)])))
         out.append(("cross8192r_%d_%d" % (x, y), Seqn.from_runs([([y], r), ([x], 8192 + k)])))
+    # a select sample taken on the last slot of a superblock of a level, then a long absence of the digit
+    for sb in (2048, 4096):
+        x, y = min(T, 1), min(T, 2)
+        m = 8192 // sb + rnd.choice([2, 3])
+        out.append(("sample_sb_end%d" % sb, Seqn.from_runs([([x], 8192), ([y], m * sb - 1 - 8192), ([x], 1), ([y], sb * rnd.choice([40, 70])), ([x], 3), ([y], 10)])))
     # levels whose length is an exact multiple of the prefetch sampling period, at least two levels
     for n in (2048, 4096) if tier == "quick" else (2048, 4096, 6144, 8192):
         out.append(("pfs_len%d" % n, Seqn.from_values(rand_seq(rnd, n, list(range(min(T, 20) + 1))))))
@@ -411,6 +416,16 @@ def quad_input_shapes(rnd, tier):
         z = (x + 2) % 4
         out.append(("occ_gap%d" % m, Seqn.from_runs([([x], 8192 * m), ([y, z], rnd.choice([5000, 9000])), ([x], 2), ([z], 40)])))
         out.append(("occ_gap_only%d" % m, Seqn.from_runs([([y], 100), ([x], 8192 * m), ([y, z, z], 4000)])))
+    # the (8192 j + 1)-th occurrence of a symbol - the one a select sample is taken at - sits on the last
+    # slot of a superblock (2048 / 4096 symbols) and the symbol is then absent from many superblocks
+    for sb in (2048, 4096):
+        for j in ([1] if tier == "quick" else [1, 2]):
+            x = rnd.randrange(4)
+            y = (x + 1 + rnd.randrange(3)) % 4
+            m = (8192 * j) // sb + rnd.choice([2, 3])
+            gap = m * sb - 1 - 8192 * j
+            far = sb * rnd.choice([40, 70])
+            out.append(("sample_sb_end%d_%d" % (sb, j), Seqn.from_runs([([x], 8192 * j), ([y], gap), ([x], 1), ([y], far), ([x], 3), ([y], 10)])))
     # one rare symbol among many; searched symbol absent from whole superblocks
     big = 40000 if tier == "quick" else 1200000
     r = rnd.randrange(4)
@@ -533,6 +548,33 @@ def camp_c06(rnd, tier):
             b.reset()
             o = b.newb(kind, rnd.choice(["new", "from"]), s)
             bit_rs_queries(b, o, s, rnd)
+    # indexes built on bit vectors that have a history: collected from positions that repeat, edited at
+    # the very end with set_bits, grown on a line boundary - the index must describe the bits, whatever
+    # the vector's cached counters say
+    for rep in range(2 if tier == "quick" else 8):
+        n = rnd.choice([70, 600, 1030])
+        bits = rand_seq(rnd, n - 1, [0, 1]) + [1]
+        ones_at = [i for i, v in enumerate(bits) if v == 1]
+        lst = ones_at + [rnd.choice(ones_at) for _ in range(3)]
+        rnd.shuffle(lst)
+        for kind, conv in (("RSN", "rs_narrow"), ("RSW", "rs_wide"), ("RSN", "rs_narrow_from"), ("RSW", "rs_wide_from")):
+            b.reset()
+            v = b.newb("BVM", "positions", ty="usize", pos=lst)
+            bv = b.conv(v, "into_bv", keep=0)
+            o = b.conv(bv, conv, keep=0)
+            bit_rs_queries(b, o, Seqn.from_values(bits), rnd)
+            # edited tail: the last L bits overwritten (they held ones)
+            b.reset()
+            bits2 = rand_seq(rnd, n, [0, 1])
+            L = rnd.choice([1, 13, 64])
+            bits2[n - L:] = [1] * L
+            v = b.newb("BVM", "bools", Seqn.from_values(bits2))
+            w = word_of(rnd, L, "alt")
+            b.mut(v, "set_bits", a=[n - L, L], w=w)
+            bits3 = bits2[:n - L] + [1 if t in set(w) else 0 for t in range(L)]
+            bv = b.conv(v, "into_bv", keep=0)
+            o = b.conv(bv, conv, keep=0)
+            bit_rs_queries(b, o, Seqn.from_values(bits3), rnd)
     b.reset()
     for kind in ["RSN", "RSW"]:
         o = b.newb(kind, "default")
@@ -561,6 +603,15 @@ def darray_group(rnd, letter, bit):
     if letter == "exact_sparse":
         # span = 65536 (first sparse): 1023 gaps of 64 + 64 extra
         return [([bit] + [ob] * 63, 1023 - 64), ([bit] + [ob] * 64, 64), ([bit], 1)]
+    if letter == "dense_lastsub":
+        # a full dense group whose last sub-group of 32 starts 65503 = 65535 - 32 bits after the first
+        # occurrence (the next sub-group entry, of a following sparse group, is the placeholder 65535);
+        # the last 32 occurrences are not contiguous
+        D = 65503
+        return [([bit] + [ob] * 65, 992), ([ob], D - 992 * 66), ([bit], 5), ([ob], 1), ([bit], 27)]
+    if letter == "partial_sub65535":
+        # a partial group of 993 occurrences: the 993rd one, the only one of its sub-group, 65535 bits after the first
+        return [([bit] + [ob] * 65, 992), ([ob], 65535 - 992 * 66), ([bit], 1)]
     if letter == "partial":
         k = rnd.choice([1, 31, 32, 33, 500])
         return [([bit] + [ob] * rnd.choice([0, 2, 70]), k)]
@@ -585,6 +636,10 @@ def darray_inputs(rnd, tier):
     for span in (65535, 65536, 65537):
         for bit in (1, 0):
             out.append(("only_partial_span%d_%d" % (span, bit), Seqn.from_runs(darray_group(rnd, "partial_span%d" % span, bit) + [([1 - bit], rnd.choice([0, 1, 65]))])))
+    # sub-group offsets that collide with the 16-bit placeholder of sparse groups
+    for bit in (1, 0):
+        out.append(("sentinel_a_%d" % bit, Seqn.from_runs(darray_group(rnd, "dense_lastsub", bit) + darray_group(rnd, "sparse", bit) + [([1 - bit], 3)])))
+        out.append(("sentinel_b_%d" % bit, Seqn.from_runs(darray_group(rnd, "dense", bit) + darray_group(rnd, "partial_sub65535", bit))))
     letters = ["dense", "sparse", "exact_dense", "exact_sparse"]
     words = []
     maxlen = 3 if tier == "thorough" else 2
@@ -627,6 +682,12 @@ def big_bits(b, rnd, kinds, nobj=1, fills=(0,)):
                 b.reset()
                 o = b.newbig(kind, base, s, fill=fill)
                 b.metabig(o)
+                if kind == "BVM":
+                    # writes that leave the content as it is: the counters must not move
+                    b.mut(o, "set", a=[7, fill])
+                    b.mut(o, "set_bits", a=[5, 64], w=list(range(64)) if fill == 1 else [])
+                    b.mut(o, "set_bits", a=[1000, 13], w=list(range(13)) if fill == 1 else [])
+                    b.metabig(o)
                 rel = sorted(set([-70000, -513, -1, 0, 1, 2, 63, 64, 511, 512, n // 2, n - 2, n - 1, n, n + 1, n + 70] + [rnd.randrange(n) for _ in range(12)]))
                 b.qbig(o, "get", rel)
                 if kind in ("RSN", "RSW"):
@@ -764,7 +825,7 @@ def bvm_history(b, rnd, nops, tier):
         o = b.newb("BVM", "with_capacity", n=rnd.choice([0, 1, 64, 1000]))
     elif start == "bools":
         bits = rand_seq(rnd, rnd.choice([0, 1, 63, 64, 65, 500, 512, 513]), [0, 1])
-        o = b.newb("BVM", "bools", Seqn.from_values(bits))
+        o = b.newb("BVM", rnd.choice(["bools", "bools_filter", "cap_push"]), Seqn.from_values(bits))
     elif start == "positions":
         bits = rand_seq(rnd, rnd.choice([1, 64, 65, 513]), [0, 1]) + [1]
         o = b.newb("BVM", "positions", Seqn.from_values(bits))
@@ -852,7 +913,7 @@ def bvm_history(b, rnd, nops, tier):
                 bits[i + t] = 1 if t in ws else 0
         elif op == "extend_bools":
             e = rand_seq(rnd, rnd.choice([0, 1, 5, 64, 130]), [0, 1])
-            b.mut(o, "extend_bools", bits=e)
+            b.mut(o, rnd.choice(["extend_bools", "extend_bools", "extend_bools_filter"]), bits=e)
             bits += e
         elif op == "extend_positions":
             base = rnd.choice([n, n, n + 1, n + 70, max(0, n - 5)])
@@ -924,6 +985,8 @@ def camp_c08(rnd, tier):
     b.meta(o)
     # positions beyond 2^32: len, counters and get of a vector with 2^32 leading zeros
     big_bits(b, rnd, ["BV"] if tier == "quick" else ["BV", "BVM"], fills=(0,) if tier == "quick" else (0, 1))
+    if tier == "quick":
+        big_bits(b, rnd, ["BVM"], fills=(1,))     # more than 2^32 ones: the counters beyond 32 bits, under (idempotent) writes
     return b
 
 
@@ -1408,6 +1471,10 @@ def camp_c19(rnd, tier):
                 c = b.conv(objs[0], "clone")
                 b.eq(objs[0], c)
                 rel_all(b, objs[0], c, "clone", "T", s, ty, kind, rnd)
+                # equality must not depend on which queries a value has answered
+                tree_queries(b, objs[0], s, ty, rnd, nrand=4)
+                b.eq(objs[0], c)
+                b.eq(objs[0], objs[1])
                 ci = b.conv(objs[1], "collect_iter")
                 rel_all(b, objs[1], ci, "path", "T", s, ty, kind, rnd)
                 # a different sequence never compares equal
@@ -1491,7 +1558,8 @@ def camp_c19(rnd, tier):
         vals = s.values()
         ends_with_one = bool(vals) and vals[-1] == 1
         for kind, paths in (("RSN", ["new", "from"]), ("RSW", ["new", "from"]), ("DA0", ["new", "bools", "positions"]),
-                            ("DA1", ["new", "bools", "positions"]), ("BV", ["bools", "from_bvm", "positions"]), ("BVM", ["bools", "from_bv", "positions"])):
+                            ("DA1", ["new", "bools", "positions"]), ("BV", ["bools", "from_bvm", "positions", "bools_filter", "cap_push"]),
+                            ("BVM", ["bools", "from_bv", "positions", "bools_filter", "cap_push"])):
             b.reset()
             ps = [p for p in paths if p != "positions" or ends_with_one]
             objs = [b.newb(kind, p, s, ty=rnd.choice(["usize", "u32", "u64", "i64"])) for p in ps]
@@ -1501,6 +1569,11 @@ def camp_c19(rnd, tier):
                     rel_all(b, objs[i], objs[j], "path", "B", s, "usize", kind, rnd)
             c = b.conv(objs[0], "clone")
             b.eq(objs[0], c)
+            # equality must not depend on which queries a value has answered: one side only is queried again
+            bit_rs_queries(b, objs[0], s, rnd, rank=kind in ("RSN", "RSW"), select0=kind in ("RSN", "RSW", "DA1")) if kind not in ("BV", "BVM") else b.meta(objs[0])
+            b.eq(objs[0], c)
+            if len(objs) > 1:
+                b.eq(objs[0], objs[1])
             if vals:
                 v2 = list(vals)
                 j = rnd.randrange(len(v2))
